@@ -289,7 +289,21 @@ func (c *Case) replay(im, mo Outcome) map[string]any {
 
 // CompareCase runs one case on both sides and reports a disagreement as a violation of the
 // correspondence `what`. Returns (model outcome usable, continue?).
+// primers: templates parsed on a throwaway engine right before a case's main template — well-formed ones ending in a
+// trimming delimiter and ones whose tokenization or parse FAILS half-way (what a failed operation leaves behind in
+// the pooled tokenizers, parsers and contexts must not reach the next template)
+var primers = []string{"x {{ 1 -}}", "{% set z = 1 -%}", "a {#- c -#}", "{{- 1 -}}", "{% if 1 -%}", "  a  {{- b -}}  c  {{- d", " x {%- if y -%} z {{- w -}} ", "{% block content %}{% block main %}{{ x -}} {% endblock",
+	"{% block content %}a{% endblock %}{% block content %}b{% endblock %}", "{% macro m(a) %}{{ a }}{% endmacro %}{% macro input(x) %}{% if", "{{ a && b >= c <= d != e }}", "{% for i in xs -%} {{- i -}} {%- endfor %}{{ 1 +", "{#- never closed"}
+var primeTick int
+
 func compareCase(e *Env, c *Case, key, broken string) (im Outcome, mo Outcome, ok bool, err error) {
+	primeTick++
+	if c.Prime == "" && primeTick%3 == 0 {
+		if _, hasMain := c.Templates[c.Main]; hasMain {
+			c.Prime = primers[(primeTick/3)%len(primers)]
+			e.Rep.Hit("primed")
+		}
+	}
 	im = runImpl(c)
 	checkRetained(e, im.Out)
 	if im.Class == "panic" || im.Class == "timeout" {
